@@ -25,7 +25,7 @@ func init() {
 		RequiredCounters: []string{"table_entries_checked", "quotients_via_coefficient_form", "lagrange_vectors_checked"},
 		Assumptions:      []string{"math/big polynomial arithmetic over F_r is the oracle; its two routes (coefficient form, evaluation form) are cross-checked in the oracle self-test"},
 		Plan: func(tier string) []Child {
-			return shards(pick(tier, 8, 16), Child{Flavour: "plain", NCPU: 1})
+			return shardsVar(pick(tier, 8, 16), Child{Flavour: "plain", NCPU: 1})
 		},
 		Run: runC18,
 	})
